@@ -991,6 +991,11 @@ static int write_char(void *context, cif_value_tp *char_value, int allow_text) {
                                 /* without prefixes a fold point may not precede a semicolon; long runs leave none nearby */
                                 || (analysis.max_semi_run >= FOLDING_WINDOW))));
 
+                        /* a prefixed line is PREFIX_LENGTH characters longer than the line it carries */
+                        if (prefix && ((analysis.length_max + PREFIX_LENGTH) > LINE_LENGTH(context))) {
+                            fold = CIF_TRUE;
+                        }
+
                         /* XXX: should really flag more specifically for whether prefixing is enabled */
                         if (!allow_text || (prefix && IS_CIF1(context))) {
                             result = CIF_DISALLOWED_VALUE;
